@@ -5,7 +5,7 @@
 //!          max/ctx: integer, or (hi lo) = hi * 2^32 + lo for values >= 2^62
 //!          clusters: the real CharString segmentation of the text; probes: ((a b) ...)
 //! output = (windows cs probes pcs)   -- see C16_Model.v
-use text_utils::text::possible_character_substrings;
+use text_utils::text::{possible_byte_substrings, possible_character_substrings};
 use text_utils::unicode::CharString;
 use text_utils::windows::{byte, char, windows, Window, WindowConfig};
 use vh::*;
@@ -469,6 +469,40 @@ impl Prop for C16 {
 
         let mut tags = vec![];
         tags.push(if g { "g".to_string() } else { "cp".to_string() });
+        // cluster byte lengths straight from the segmentation (not through the RLE)
+        let lens: Vec<usize> = CharString::split(&s, g).map(str::len).collect();
+        // informational: possible_byte_substrings shares the offset arithmetic (no model, no clause)
+        if max < 64 {
+            let s7 = s.clone();
+            let l7 = lens.clone();
+            let r = std::panic::catch_unwind(move || {
+                let mut pre = vec![0usize];
+                for b in &l7 {
+                    pre.push(pre.last().unwrap() + b);
+                }
+                possible_byte_substrings(&s7, max, g).into_iter().all(|(sb, eb, n)| {
+                    if s7.is_empty() {
+                        return (sb, eb, n) == (0, 0, 0);
+                    }
+                    match pre.iter().position(|p| *p == sb) {
+                        Some(a) => n >= 1 && a + n < pre.len() && pre[a + n] == eb && eb - sb <= max,
+                        None => false,
+                    }
+                })
+            });
+            tags.push(match r {
+                Ok(true) => "pbs-ok".into(),
+                Ok(false) => "pbs-bad".into(),
+                Err(_) => "pbs-panic".into(),
+            });
+        }
+        if kind == 1 || kind == 4 {
+            if let Some(widest) = lens.iter().max() {
+                if max > ctx.saturating_mul(2) && *widest > max - 2 * ctx && *widest <= max - ctx {
+                    tags.push("grey".into());
+                }
+            }
+        }
         tags.push(["k:char", "k:byte", "k:full", "k:char-direct", "k:byte-direct"][kind].to_string());
         if s.is_empty() {
             tags.push("empty".into());
